@@ -184,7 +184,7 @@ def canon_cond(program, atom, label, blk=None):
                 if isinstance(l, str):
                     return m.get(l, l)
                 if isinstance(l, tuple) and l and l[0] in ("else", "anyof"):
-                    return (l[0], tuple(m.get(x, x) for x in l[1]))
+                    return (l[0], tuple(m.get(x, x) for x in l[1])) + tuple(tuple(m.get(x, x) for x in y) for y in l[2:])
                 return l
             label = tr(label)
             place = T.strip(place[2][0])
@@ -194,6 +194,9 @@ def canon_cond(program, atom, label, blk=None):
                 res.append(("variant", place, rest[0], True, blk))
             else:
                 res.append(("variant_in", place, tuple(rest), True, blk))
+                # the catch-all arm also says which variants the value is NOT (`match x { Any => .., other => .. }`: other is not Any)
+                for ex in (label[2] if len(label) > 2 else ()):
+                    res.append(("variant", place, ex, False, blk))
         elif isinstance(label, tuple) and label and label[0] == "anyof":
             res.append(("variant_in", place, tuple(label[1]), True, blk))
         else:
